@@ -342,7 +342,13 @@ func (ex *Exec) eqVal(t types.Type, x, y value) *smt.Term {
 	if eq, ok := ex.modelEq(x, y); ok {
 		return eq
 	}
-	panic(ex.unsupported(fmt.Sprintf("== on %T", x)))
+	if lx, ok := x.(*LocV); ok {
+		// *time.Location values met directly (a Location held by value in an interface): identity of the model object,
+		// with the UTC singleton equal to itself only
+		ly, ok2 := y.(*LocV)
+		return b.Bool(ok2 && (lx == ly || (lx.kind == "utc" && ly.kind == "utc")))
+	}
+	panic(ex.unsupported(fmt.Sprintf("== on %T", x) + ex.stackOf(ex.curFrame)))
 }
 
 func typesIdentical(a, c types.Type) bool {
